@@ -412,6 +412,8 @@ bool StepExtended(ScriptExecutionEnvironment& env, CScript::const_iterator& pc, 
         {
             CScriptNum num1(vch1, env.fRequireMinimal, 5);
             CScriptNum num2(vch2, env.fRequireMinimal, 5);
+            // division by zero is a script failure, not an arithmetic trap
+            if ((env.opcode == OP_DIV || env.opcode == OP_MOD) && num2 == 0) return set_error(serror, SCRIPT_ERR_UNKNOWN_ERROR);
             switch (env.opcode) {
             case OP_MUL: num1 = num1 * num2; break;
             case OP_DIV: num1 = num1 / num2; break;
